@@ -696,6 +696,13 @@ class Interp:
         key = callee_key(callee)
         import models
         m = models.MODELS.get(key)
+        if m is None and key.startswith('std::'):
+            # the same item printed through std's re-export (which of the two paths the compiler prints depends on the calling crate's imports)
+            for pre in ('core::', 'alloc::'):
+                if pre + key[5:] in models.MODELS:
+                    key = pre + key[5:]
+                    m = models.MODELS[key]
+                    break
         rid = res.get('id')
         if m is not None and callee.get('trait_dpath') and key not in SHADOW_OK and rid in self.suite.bodies \
                 and self.suite.bodies[rid]['crate'] == 'opaque_ke' and depth < self.depth_cap:
